@@ -62,11 +62,23 @@ def elem_loops(fn, root):
                 if fn.k(iv_src) == "Subscript" and fn.canon(fn.ch(iv_src)[1], subst=False) == iv:
                     samples.setdefault(s["path"], lin.poly(fn, fn.ch(iv_src)[0]))
         for s in paths.stores(fn, body):
-            if s["kind"] != "Subscript" or s["rhs"] is None or s["op"] != "=":
+            if s["rhs"] is None or s["op"] != "=":
                 continue
             lhs = fn.nodes[s["lhs"]]
-            base, idx = lhs["ch"]
-            ip = lin.poly(fn, idx)
+            if s["kind"] == "Subscript":
+                base, idx = lhs["ch"]
+                ip = lin.poly(fn, idx)
+                bp_ = lin.poly(fn, base)
+            elif s["kind"] == "Un" and lhs.get("op") == "*":
+                # *(base + off + i) = ...   is   base[off + i] = ...
+                whole = lin.poly(fn, lhs["ch"][0])
+                if whole.get((iv,), 0) != 1:
+                    continue
+                ip = {(iv,): 1}
+                bp_ = dict(whole)
+                del bp_[(iv,)]
+            else:
+                continue
             if ip.get((iv,), 0) != 1:
                 continue
             off = dict(ip)
@@ -74,7 +86,7 @@ def elem_loops(fn, root):
             used = [fn.nodes[d]["name"] for d in fn.walk(s["rhs"]) if fn.k(d) == "DeclRef" and fn.nodes[d]["name"] in samples]
             if not used:
                 continue
-            dst = lin.p_add(lin.poly(fn, base), off)
+            dst = lin.p_add(bp_, off)
             out.append((l, dst, samples[used[0]], cnt, s["node"]))
     return out
 
